@@ -6,7 +6,7 @@ CONSTANT Defs
 
 Failed_(clauses) == {clauses[i][1] : i \in {j \in 1..Len(clauses) : ~clauses[j][2]}}
 
-\* DIALECT [name, init_ok, decl (def indices in declaration order), hits <<id, def index, returned id>>, nlookups]
+\* DIALECT [name, init_ok, decl (def indices in declaration order), hits <<id, def index, returned id, codec CRC_EXTRA>>, nlookups]
 Check_DIALECT(r) ==
   LET declared == {<<Defs[r.decl[k]].id, r.decl[k]>> : k \in 1..Len(r.decl)}
       got == {<<r.hits[k][1], r.hits[k][2]>> : k \in 1..Len(r.hits)}
@@ -15,6 +15,8 @@ Check_DIALECT(r) ==
                 <<"ids_unique", Cardinality({Defs[r.decl[k]].id : k \in 1..Len(r.decl)}) = Len(r.decl)>>,
                 <<"lookup_returns_exactly_the_declared_messages", got = declared>>,
                 <<"lookup_returns_codec_of_that_id", \A k \in 1..Len(r.hits) : r.hits[k][3] = r.hits[k][1]>>,
+                <<"lookup_codec_has_the_crc_extra_of_its_definition",
+                    \A k \in 1..Len(r.hits) : r.hits[k][2] = 0 \/ r.hits[k][4] = CrcExtra(FromGo(Defs[r.hits[k][2]]))>>,
                 <<"every_message_fits_255", \A k \in 1..Len(r.decl) : SizeExt(FromGo(Defs[r.decl[k]])) <= 255>> >>)
 
 \* XTYPE [name, id, types]: the distinct Go types behind one (message name, id) across all dialects
